@@ -184,8 +184,8 @@ kf("C18", "C18-nested-array-of-struct-access", "dynamic access chains into array
    ["C18|func.type-check|*|nested_struct_access_chains"])
 kf("C18", "C18-int-float-operand-mix", "integer `%` on u32 vectors (and some constructor paths) produce binop records whose operands mix float and i32 values",
    ["C18|func.type-check|*has type float, the record implies i#|*", "C18|func.type-check|*has type i#, the record implies float|*"])
-kf("C18", "C18-i8-constant-argument", "dx.op calls for countLeadingZeros/sign/extractBits/insertBits on 4-component vectors pass an i8-typed constant where the callee expects i32",
-   ["C18|func.type-check|*has type i#, the record implies i#|F1/call/*"])
+kf("C18", "C18-i8-constant-argument", "dx.op calls for countLeadingZeros/sign/extractBits/insertBits, and unary `-`/`~`, on 4-component vectors pass an i8-typed constant where the callee expects i32",
+   ["C18|func.type-check|*has type i#, the record implies i#|F1/call/*", "C18|func.type-check|*has type i#, the record implies i#|F1/un/*/vec4<*"])
 kf("C18", "C18-bool-width", "boolean values are materialised inconsistently as i1 and i32: zext/sext from i32 to i32 for `!` on bool vectors, i32 stored through an i1 pointer for `&&`",
    ["C18|func.type-check|*invalid zext/sext|*", "C18|func.type-check|*does not match pointee type i#|*"])
 kf("C18", "C18-switch-phi-dominance", "switch statements assigning a variable produce phi nodes whose incoming values are defined in non-dominating blocks / forward references of the wrong type (debug-symbol-terrain)",
@@ -193,7 +193,7 @@ kf("C18", "C18-switch-phi-dominance", "switch statements assigning a variable pr
 kf("C18", "C18-gep-flattened-struct", "a nested struct local is flattened but the member GEP keeps the nested source element type (corpus/access)",
    ["C18|func.type-check|*explicit GEP source element type*|corpus/access", "C18|func.type-check|*GEP index # steps into non-aggregate type*|corpus/access"])
 kf("C18", "C18-cbuffer-resource-id", "with a workgroup/private mix, the cbuffer record in dx.resources has resource id 1 instead of the zero-based index in its class list",
-   ["C18|dxmeta.resources|*|private_workgroup_init_and_const_arrays"])
+   ["C18|dxmeta.resources|*|private_workgroup_init_and_const_arrays", "C18|dxmeta.resources|cbuffer record # has resource id #*|private_workgroup_init_and_const_arrays|map:*"])
 
 # ---------------------------------------------------------------- C19 (neutral edits)
 kf("C19", "C19-cr-line-comment", "a line comment terminated by a lone carriage return swallowed the following source text (statements or whole entry points vanished, or the program was rejected)",
